@@ -646,7 +646,7 @@ M('cli-ipc-user-outputs-not-recorded', ['C12'], CLI, "            elif output.st
 M('seek-D32-shape-end-past-list', ['C13', 'C14'], RL, "                        read_file.seek(0, 2)\n\n                        self.read_idx -= 1\n", "                        read_file.seek(0, 2)\n", ['C13.R10', 'C14.R10'])
 M('init-D32-shape-default-past-list', ['C13'], RL, "        self.seek(('end', 0))\n\n        if head is not None:", "        self.read_idx = len(self.logfiles)\n\n        if head is not None:", ['C13.R10'])
 M('read-D33-shape-no-reread', ['C13', 'C14'], RL, "                        if self.read_file is not None and (data := read_file.read() if block else read_file.readline()):  # the writer may have completed this file between our empty read and the rescan, do not leave it unread\n                            break\n\n", "", ['C13.R4', 'C14.R10'])
-M('allowlist-D34-shape-scalar', ['C16'], CF, "                names = config.get(\"safe_metrics\", [])\n                if isinstance(names, str):  # a scalar instead of a list: one entry (or a comma list), not a set of its characters\n                    names = names.split(\",\")\n                return set(str(name).strip() for name in names if str(name).strip())", "                return set(config.get(\"safe_metrics\", []))", ['C16.R6'])
+M('allowlist-D34-shape-scalar', ['C16'], CF, "                names = config.get(\"safe_metrics\") or []  # 'safe_metrics:' with nothing under it is an empty list: the file still takes precedence over the environment\n                if isinstance(names, str):  # a scalar instead of a list: one entry (or a comma list), not a set of its characters\n                    names = names.split(\",\")\n                return set(str(name).strip() for name in names if str(name).strip())", "                return set(config.get(\"safe_metrics\", []))", ['C16.R6'])
 M('seed6-C06-repeat-not-counted', ['C06', 'C04'], Z, "            clients[full_id] = ZMQSender.Client(client_id, pull, t, True, ephemeral, prev_id)", "            known            = clients.get(full_id)\n            clients[full_id] = ZMQSender.Client(client_id, pull, t, known is None or known.requested or prev_id != known.prev_id, ephemeral, prev_id)", ['C06.R9', 'C04.R1'])
 M('seed6-C14-guard-compares-raw-float', ['C14', 'C13'], RL, "if (logfiles := self.logfiles) and int(ts * 1_000_000) <= (last_us := round(logfiles[-1].timestamp * 1_000_000)):  # a repeated or backwards timestamp would reuse (and truncate) an existing file name or break the sort order, so name the new file one microsecond after the newest one\n            ts = (last_us + 1.5) / 1_000_000", "if (logfiles := self.logfiles) and ts <= (last_ts := logfiles[-1].timestamp):\n            ts = (round(last_ts * 1_000_000) + 1.5) / 1_000_000", ['C14.R9', 'C13.R1'])
 M('seed6-C02-fortran-buffer', ['C02', 'C09'], MQ, "img  = frame.jpg if do_jpg else bytearray(memoryview(frame.image))", "img  = frame.jpg if do_jpg else mv if (mv := memoryview(frame.image)).contiguous else bytearray(mv)", ['C02.R11', 'C09.R8'])
@@ -721,3 +721,7 @@ M('C16-histogram-elements-stringified', ['C16'], LN, "                data[k] = 
 M('seed9-C17-filter-wide-options-win', ['C17'], VI, "[{**default_options, **options} for options in optionss]", "[{**options, **default_options} for options in optionss]", ['C17.R10'])
 M('cli-ipc-user-outputs-not-recorded-2', ['C12'], CLI, "            elif output.startswith(\"ipc://\"):\n                ipc_outputs.add(only_mq_addr(output))\n", "            elif output.startswith(\"ipc://\"):\n                pass\n", ['C12.R9'])
 M('seed9-C06-recv-state-only-when-published', ['C06', 'C02'], MQ, "        self.recv_state = recv_state if frames is not None else None  #", "        if metrics is not None:\n            self.recv_state = recv_state if frames is not None else None  #", ['C06.R14', 'C02.R7'])
+M('lineage-D61-shape-facets-kept-across-runs', ['C16'], LN, "            self.facets = {}  # what the heartbeats carry: nothing yet", "            pass  # what the heartbeats carry: nothing yet", ['C16.R8'])
+M('lineage-facets-reset-only-with-model', ['C16'], LN, "            self.facets = {}  # what the heartbeats carry: nothing yet", "            if self.filter_model: self.facets = {}  # what the heartbeats carry: nothing yet", ['C16.R8'])
+M('allowlist-D62-shape-null-key', ['C16'], CF, 'names = config.get("safe_metrics") or []', 'names = config.get("safe_metrics", [])', ['C16.R9'])
+M('allowlist-D62-shape-empty-document', ['C16'], CF, "config = yaml.safe_load(f) or {}", "config = yaml.safe_load(f)", ['C16.R9'])
